@@ -876,3 +876,7 @@ mod tests {
         }
     }
 }
+
+#[cfg(all(test, feature = "pendulum_project_ntpd_rs_verif"))]
+#[path = "../../../../../verif/harness/ntp_proto/algorithm_kalman.rs"]
+mod verif_algorithm_kalman;
